@@ -139,7 +139,7 @@ static int mb_test(ext2fs_generic_bitmap_64 bm, __u64 arg)
 	return other_member(arg);
 }
 #define EXT_PRE(bm, arg, num) ((arg) >= (bm)->start && (num) > 0 && (arg) + (num) - 1 >= (arg) && (arg) + (num) - 1 <= (bm)->real_end)
-#define K_IN_EXT(arg, num) (verif_k >= (arg) && verif_k - (arg) < (num))
+#define K_IN_EXT(arg, num) (verif_k >= (arg) && verif_k <= (arg) + ((num) - 1))
 static void mb_mark_ext(ext2fs_generic_bitmap_64 bm, __u64 arg, unsigned int num)
 {
 	log_call(bm, OP_MARK_EXT, arg, num, 0);
@@ -163,6 +163,8 @@ static int mb_test_clear_ext(ext2fs_generic_bitmap_64 bm, __u64 arg, unsigned in
 	CHECK(EXT_PRE(bm, arg, num), "backend precondition: test_clear_bmap_extent range inside the bitmap");
 	if (K_IN_EXT(arg, num) && MEMBER(bm))
 		ASSUME(!all_clear);
+	if (arg == verif_k && num == 1 && !MEMBER(bm))
+		ASSUME(all_clear);	/* the extent is exactly {k}: the answer is determined */
 	return all_clear;
 }
 static errcode_t mb_set_range(ext2fs_generic_bitmap_64 bm, __u64 start, size_t num, void *in)
@@ -305,8 +307,8 @@ static ext2fs_generic_bitmap build_a(const struct ext2_bitmap_ops *ops)
 	CB_CASE(0, fn, g) CB_CASE(4, fn, g) \
 	default: CHECK(0, "cluster_bits outside {0, 4} is excluded by the assumption of this unit"); }
 #else
-#define CB_CASE(n, fn, g) case n: BMA.cluster_bits = n; fn(g); break;
-#define SPLIT_CB(fn, g) switch (BMA.cluster_bits) { \
+#define CB_CASE(n, fn, g) case n: BMA.cluster_bits = n; BMB.cluster_bits = n; fn((ext2fs_generic_bitmap)&BMA); break;
+#define SPLIT_CB(fn, g) if (!(g)) fn((ext2fs_generic_bitmap)0); else switch (BMA.cluster_bits) { \
 	CB_CASE(0, fn, g) CB_CASE(1, fn, g) CB_CASE(2, fn, g) CB_CASE(3, fn, g) CB_CASE(4, fn, g) CB_CASE(5, fn, g) \
 	CB_CASE(6, fn, g) CB_CASE(7, fn, g) CB_CASE(8, fn, g) CB_CASE(9, fn, g) CB_CASE(10, fn, g) CB_CASE(11, fn, g) \
 	CB_CASE(12, fn, g) CB_CASE(13, fn, g) CB_CASE(14, fn, g) CB_CASE(15, fn, g) CB_CASE(16, fn, g) CB_CASE(17, fn, g) \
